@@ -46,7 +46,7 @@ def classify_name(e: ast.AST, fi: Optional[FuncInfo], depth: int = 0, _seen: Opt
     if isinstance(e, ast.Call):
         cn = call_name(e) or ""
         last = cn.split(".")[-1]
-        if last == "fresh_name" or last.endswith("fresh_name") or last in ("_fresh_name", "_unique_name", "unique_name"):
+        if last == "fresh_name" or last.endswith("fresh_name") or last in ("_fresh_name", "_unique_name", "unique_name", "_fresh_value_name"):
             return "FRESH", cn
         if cn == "getattr" and len(e.args) >= 2 and isinstance(e.args[1], ast.Constant) and e.args[1].value == "name":
             return "EXISTING", "getattr(…, 'name')"
